@@ -26,7 +26,7 @@ func c15tier(t string) int {
 	if t == "thorough" {
 		return 1500000
 	}
-	return 200000
+	return 150000
 }
 
 const c15Unit = 250
@@ -38,7 +38,9 @@ var docPool = []string{
 	`{"id":%d,"v":100000000000000000000,"f":1.0}`, `{"id":%d,"v":{"z":1,"a":{"k":[true,null]}}}`, `{"id":%d,"v":"héllo\n"}`,
 }
 
-var scalarDocs = []string{`null`, `false`, `true`, `0`, `1.50`, `"str"`, `"a\u0000b"`, `[]`, `{}`, `[1,[2]]`, `100000000000000000000`, `-0`, `"multi\nline"`, `[null,false]`}
+var deepDoc = strings.Repeat("[", 20) + `{"a":` + strings.Repeat(`{"b":[`, 6) + "1" + strings.Repeat("]}", 6) + "}" + strings.Repeat("]", 20)
+
+var scalarDocs = []string{deepDoc, `null`, `false`, `true`, `0`, `1.50`, `"str"`, `"a\u0000b"`, `[]`, `{}`, `[1,[2]]`, `100000000000000000000`, `-0`, `"multi\nline"`, `[null,false]`}
 
 // bigDoc is a document larger than the decoder's and the encoder's internal buffers.
 func bigDoc(r *kernel.Rand, id int) string {
@@ -100,7 +102,7 @@ var c15Items = []string{
 	`(select(.id? == %d) | "hit")`, `(.v? // "alt")`, `(try error("c") catch .)`, `(.id? | select(. != null) | . * 2)`, `100000000000000000000`, `1.0`, `(.v? | select(type == "string"))`,
 	`input`, `(try input catch "none")`, `[limit(1; inputs)]`, `(1/0)?`, `(. as $x | $x)`, `$__loc__.line`, `input_line_number`,
 	// outputs larger than the encoder's flush threshold
-	`[range(2500)]`, `("x" * 9000)`, `[range(400) | {a: ., b: "str é"}]`, `(.big? | length)`, `[.big?[]? | tostring] | join(",")`, `{a: [range(1200)], b: .id?}`,
+	`reduce range(40) as $i (.; [.])`, `reduce range(12) as $i (1; {a: [.]})`, `[range(2500)]`, `("x" * 9000)`, `[range(400) | {a: ., b: "str é"}]`, `(.big? | length)`, `[.big?[]? | tostring] | join(",")`, `{a: [range(1200)], b: .id?}`,
 }
 
 func genC15Query(r *kernel.Rand, ndocs int, allowInput bool) string {
